@@ -404,8 +404,11 @@ impl SourceInfo {
     }
 
     /// Gets the line number of the current position.
+    /// 
+    /// Any position past the end of the source is on the last line.
     fn get_line(&self, index: usize) -> usize {
-        self.nl_indices.partition_point(|&start| start < index)
+        let last_line = self.count_lines().saturating_sub(1);
+        self.nl_indices.partition_point(|&start| start < index).min(last_line)
     }
 
     /// Calculates the line and character number for a given character index.
@@ -417,7 +420,6 @@ impl SourceInfo {
         let lno = self.get_line(index);
 
         let Range { start: lstart, .. } = self.raw_line_span(lno)
-            .or_else(|| self.raw_line_span(self.nl_indices.len()))
             .unwrap_or(0..0);
         let cno = index - lstart;
         (lno, cno)
